@@ -29,7 +29,8 @@ const (
 
 func init() {
 	register("C11", "proof", "T8/normalised AST shape (quorum formula), T4 GuardedBy (bound and wrap checks on every returning path), T15 ConstRelation (go/constant + types.Sizes), T6 WhoMayWrite, T7 Pairing, NormLinCmp",
-		"Shape obligations, all of which must discharge: (1) Validators.Quorum returns ((T*2)/3)+1 with T = TotalWeight() = cache.totalWeight, multiplication before division (evaluation order fixes the floor), over an unsigned type at least as wide as Weight; (2) every returning path of calcCaches has taken the edge totalWeight <= K (one constant K, read from the code with go/constant) after the last write of the total, and every accumulation total += w is followed, before the next iteration or a return, by the edge snapshot <= total of the wrap check (unsigned a+b wraps iff the result is below a), so the cached total is the true sum; the accumulated value is the value stored as weights[i] in the same iteration (the same expression, the same field of the iteration's element however the element is spelled, or weights[i] itself read back) of a loop whose index is advanced by the loop header only (range or counted by one), and GetWeightByIdx reads weights[i]; intermediate values may sit in single-definition locals throughout; (3) T15: Weight is unsigned, 2*K <= max(type of T*2) and floor(2K/3)+1 <= max(Weight), so T*2 cannot overflow and the quorum is representable; (4) T6: the fields of Validators, cache and WeightCounter are written only by the frozen owners (calcCaches on its fresh local cache, newValidators, DecodeRLP by whole-struct replacement, newWeightCounter, CountByIdx), module-wide for composite literals and whole-struct stores; a constructor's single stores x.f = e through the fresh, non-escaping local x that holds its one allocation count as that allocation (same meaning as the literal T{f: e}); (5) CountByIdx adds GetWeightByIdx(i) to sum only on the edge already[i] == false and pairs it with already[i] = true for the same i; the counter starts with sum 0 and a fresh all-false slice; Count is CountByIdx(validators.GetIdx(v)); (6) HasQuorum normalises to sum >= quorum and quorum is written once, from Quorum() of the very validator set stored in the counter. "+
+		"Shape obligations, all of which must discharge: (1) Validators.Quorum returns ((T*2)/3)+1 with T = TotalWeight() = cache.totalWeight, multiplication before division (evaluation order fixes the floor), over an unsigned type at least as wide as Weight; (2) every returning path of calcCaches has taken the edge totalWeight <= K (one constant K, read from the code with go/constant) after the last write of the total, and every accumulation total += w is followed, before the next iteration or a return, by the edge snapshot <= total of the wrap check (unsigned a+b wraps iff the result is below a), so the cached total is the true sum; the accumulated value is the value stored as weights[i] in the same iteration (the same expression, the same field of the iteration's element however the element is spelled, or weights[i] itself read back) of a loop whose index is advanced by the loop header only (range or counted by one), or the total is accumulated by a later complete pass over the cached weights themselves with no store into them afterwards, and GetWeightByIdx reads weights[i]; intermediate values may sit in single-definition locals throughout; (3) T15: Weight is unsigned, 2*K <= max(type of T*2) and floor(2K/3)+1 <= max(Weight), so T*2 cannot overflow and the quorum is representable; (4) T6: the fields of Validators, cache and WeightCounter are written only by the frozen owners (calcCaches on its fresh local cache, newValidators, DecodeRLP by whole-struct replacement, newWeightCounter, CountByIdx), module-wide for composite literals and whole-struct stores; a constructor's single stores x.f = e through the fresh, non-escaping local x that holds its one allocation count as that allocation (same meaning as the literal T{f: e}); (5) CountByIdx adds GetWeightByIdx(i) to sum only on the edge already[i] == false and pairs it with already[i] = true for the same i; the counter starts with sum 0 and a fresh all-false slice; Count is CountByIdx(validators.GetIdx(v)); (6) HasQuorum normalises to sum >= quorum (returned directly, as constant results on the corresponding edges, or through a result variable each of whose values is justified by the edges around its assignment) and quorum is written once, from Quorum() of the very validator set stored in the counter. "+
+			"Helpers: each clause about a function body is decided on the function as written or, if that leaves something open, on its inlined view (c11_view.go): a re-typechecked copy in which the statically dispatched calls of same-package functions other than the anchors named here, and the calls of local closures, are replaced by the callee's body (bounded depth); both are the same program. A function literal whose calls are not looked through and that writes the watched state fails the clause. In (4), a store through a parameter of a delegate (unexported, only ever called, never a function value or go target) or of a closure that cannot run outside its function is a store of its callers through their operand (c11_deleg.go). "+
 			"Trusted elementary lemma: for integers 1 <= T <= K and Q = floor(2T/3)+1: (a) T >= Q, since floor(2T/3) <= T-1 for T >= 1; (b) S <= 2T/3 implies S <= floor(2T/3) < Q; (c) S1,S2 >= Q implies S1,S2 > 2T/3, so the shared weight S1+S2-T > 4T/3-T = T/3; by (5) the counter's sum is a sum of weights[i] over distinct i, hence <= T <= K and never wraps, and by (6) a quorum is reported exactly when sum >= Q. Together with (1)-(4) this is the statement for every non-empty set with total <= K. Not decided: nothing of the statement beyond the lemma; behaviour for an empty set (T = 0, Q = 1) and for Count of an unknown validator ID (GetIdx yields index 0) is outside the quantifier.",
 		[]string{"the elementary lemma stated in the explanation", "Go unsigned integer arithmetic is modulo 2^n (language spec)", "sets are non-empty; Count is called with member IDs only"},
 		runC11)
@@ -218,6 +219,7 @@ func c11Writers(c *core.Ctx, watchedFields []string, watchedTypes []string, owne
 		}
 		return ch[0]
 	}
+	deleg := c11DelegOf(p)
 	for _, f := range p.Funcs() {
 		objs := map[string]*c11Object{}
 		constructed := func(tn string) *c11Object {
@@ -230,6 +232,36 @@ func c11Writers(c *core.Ctx, watchedFields []string, watchedTypes []string, owne
 		}
 		for _, st := range c11Stores(f) {
 			root, chain := c11Chain(f, st.Target)
+			// a store through a parameter of a delegate (a private helper that is only ever called) is a
+			// store of its callers through their operand
+			ownStore := false
+			for _, fld := range chain {
+				if _, listed := own[f.Name+"|"+fld]; listed && isWF[fld] {
+					ownStore = true // f is itself a listed owner of the field: the store is its own
+				}
+			}
+			if attrs := deleg.attributed(f, varOf(f, root), c11DelegDepth); !ownStore && (len(attrs) != 1 || attrs[0].F != f) {
+				for _, at := range attrs {
+					via := st.Kind + " through " + short(f.Name)
+					viaWatched := false
+					for _, fld := range append(append([]string(nil), at.Prefix...), chain...) {
+						if isWF[fld] {
+							add(at.F, fld, via, st.Pos)
+							viaWatched = true
+						}
+					}
+					if st.Kind == "assign" && !viaWatched {
+						if tv, ok := f.Info().Types[st.Target]; ok {
+							if _, isPtr := tv.Type.(*types.Pointer); !isPtr && isWT[c11NamedOf(tv.Type)] {
+								if _, plain := ast.Unparen(st.Target).(*ast.Ident); !plain {
+									add(at.F, "whole:"+c11NamedOf(tv.Type), via, st.Pos)
+								}
+							}
+						}
+					}
+				}
+				continue
+			}
 			// construction: a constructor that fills its one object field by field through the fresh local
 			// holding it (x := &T{}; x.a = ...) does what the literal T{a: ...} does; such a store is
 			// attributed to the allocation ("lit:T"), whichever spelling is used
@@ -270,7 +302,19 @@ func c11Writers(c *core.Ctx, watchedFields []string, watchedTypes []string, owne
 			if lit, ok := n.(*ast.CompositeLit); ok {
 				if tv, ok := f.Info().Types[lit]; ok {
 					if _, isPtr := tv.Type.(*types.Pointer); !isPtr && isWT[c11NamedOf(tv.Type)] {
-						add(f, "lit:"+c11NamedOf(tv.Type), "literal", lit.Pos())
+						// an allocation made by a delegate is made on behalf of its callers (unless the
+						// delegate is itself the listed owner of the allocation)
+						rs := []*core.FuncInfo{f}
+						if _, listed := own[f.Name+"|lit:"+c11NamedOf(tv.Type)]; !listed {
+							rs = deleg.roots(f, c11DelegDepth)
+						}
+						for _, r := range rs {
+							kind := "literal"
+							if r != f {
+								kind = "literal in " + short(f.Name)
+							}
+							add(r, "lit:"+c11NamedOf(tv.Type), kind, lit.Pos())
+						}
 					}
 				}
 			}
@@ -700,9 +744,9 @@ func runC11(c *core.Ctx) {
 	}
 
 	// (1) ---------------------------------------------------------------
-	c.Clause("C11.quorum", func() {
-		q := c.Fn(c11V + ".Quorum")
-		tw := c.Fn(c11V + ".TotalWeight")
+	c11Clause(c, "C11.quorum", func(c *core.Ctx) {
+		q := c11Fn(c, c11V+".Quorum")
+		tw := c11Fn(c, c11V+".TotalWeight")
 		c.Need(sizes != nil && weightSize() > 0, "Weight is an unsigned integer type with known size")
 		okTW := len(tw.ReturnPoints()) > 0
 		for _, rp := range tw.ReturnPoints() {
@@ -757,8 +801,8 @@ func runC11(c *core.Ctx) {
 	})
 
 	// (2) ---------------------------------------------------------------
-	c.Clause("C11.bound", func() {
-		calc := c.Fn(c11V + ".calcCaches")
+	c11Clause(c, "C11.bound", func(c *core.Ctx) {
+		calc := c11Fn(c, c11V+".calcCaches")
 		V, K, match, why := c11FindLimit(calc)
 		if K == nil {
 			if V != nil && strings.HasPrefix(why, "found 0 ") {
@@ -769,6 +813,9 @@ func runC11(c *core.Ctx) {
 			return
 		}
 		limitK = K
+		if pos, hit := c11LitEffect(calc, map[string]bool{c11FTotal: true}, map[*types.Var]bool{V: true}, false); hit {
+			c.Fail("no effect hidden in a function literal", "T6 (closures)", pos, "a function literal of calcCaches that is not looked through writes the cache total: the bound and wrap checks of the body do not cover that write")
+		}
 		isTotalLHS := func(a assignment) bool { return c11IsPath(calc, a.LHS, V, c11FTotal) }
 		// every return is reached only through the edge total <= K ...
 		okAll := true
@@ -821,10 +868,13 @@ func runC11(c *core.Ctx) {
 	})
 
 	// (2b) the summands are the cached weights ---------------------------
-	c.Clause("C11.summands", func() {
-		calc := c.Fn(c11V + ".calcCaches")
+	c11Clause(c, "C11.summands", func(c *core.Ctx) {
+		calc := c11Fn(c, c11V+".calcCaches")
 		V, _, _, _ := c11FindLimit(calc)
 		c.Need(V != nil, "calcCaches returns one local cache variable")
+		if pos, hit := c11LitEffect(calc, map[string]bool{c11FTotal: true, c11FWeights: true}, map[*types.Var]bool{V: true}, false); hit {
+			c.Fail("no effect hidden in a function literal", "T6 (closures)", pos, "a function literal of calcCaches that is not looked through writes the cached weights or the total: the sum need not be the sum of the cached weights")
+		}
 		var acc, wst []assignment
 		isTot := func(e ast.Expr) bool { return c11IsPath(calc, e, V, c11FTotal) }
 		for _, a := range assignments(calc) {
@@ -840,6 +890,35 @@ func runC11(c *core.Ctx) {
 		// the loop may be written as a range or as a counted loop: what matters is that its index takes
 		// each value once (bound by the loop header only, stepping by one)
 		it := c11IterationAt(calc, a.Stmt.Pos())
+		if it != nil && it.Stmt != enclosingLoop(calc, w.Stmt.Pos()) && it.Coll != nil && c11IsPath(calc, it.Coll, V, c11FWeights) {
+			// split form: the weights are stored by one loop and summed by a later, complete pass over the
+			// cached weights themselves (for _, x := range cache.weights { total += x }). The total is then
+			// the sum of weights[j] over all j whatever the first loop stored, provided nothing is stored
+			// into the weights once the pass has begun.
+			elem := it.isElem(c11Addend(a, isTot))
+			every := it.everyIteration([]core.Point{a.Pt})
+			noLate := true
+			for _, st := range c11Stores(calc) {
+				root, chain := c11Chain(calc, st.Target)
+				if varOf(calc, root) != V {
+					continue
+				}
+				touches := len(chain) == 0
+				for _, fld := range chain {
+					if fld == c11FWeights {
+						touches = true
+					}
+				}
+				if pt, ok := calc.PointOf(st.Target); touches && (!ok || calc.CanReach(a.Pt, pt)) {
+					noLate = false
+				}
+			}
+			c.Check(elem && every && noLate, "total is the sum of weights[i]", "T7 Pairing", a.Stmt.Pos(),
+				"a complete pass over the cached weights adds every weights[j] to the total, and nothing is stored into the weights after it has begun",
+				"the pass that sums the cached weights skips elements, adds something else, or the weights are changed after they were summed: a counter summing weights[i] over distinct i may then exceed the total")
+			c11CheckGetWeight(c)
+			return
+		}
 		c.Need(it != nil && it.Stmt == enclosingLoop(calc, w.Stmt.Pos()), "both statements are in the same loop whose index is advanced by the loop header only")
 		ix := ast.Unparen(w.LHS).(*ast.IndexExpr)
 		keyOK := it.isIndex(ix.Index)
@@ -868,24 +947,12 @@ func runC11(c *core.Ctx) {
 		c.Check(keyOK && same && paired && paired2, "total is the sum of weights[i]", "T7 Pairing", a.Stmt.Pos(),
 			"in every iteration the value added to the total is the value stored at weights[i], i the loop index (distinct per iteration)",
 			"the accumulated value and the stored weights[i] differ, or one of them can be skipped: a counter summing weights[i] over distinct i may then exceed the total (a subset could exceed the whole set, sum may wrap)")
-		g := c.Fn(c11V + ".GetWeightByIdx")
-		okG := len(g.ReturnPoints()) > 0
-		for _, rp := range g.ReturnPoints() {
-			r := rp.Node().(*ast.ReturnStmt)
-			okR := false
-			if len(r.Results) == 1 {
-				if ix, ok := ast.Unparen(resolveLocal(g, r.Results[0])).(*ast.IndexExpr); ok {
-					okR = c11IsPath(g, ix.X, g.Recv(), c11FVCache, c11FWeights) && varOf(g, ix.Index) == g.Param(0) && g.Param(0) != nil && len(assignsToVar(g, g.Param(0))) == 0
-				}
-			}
-			okG = okG && okR
-		}
-		c.Check(okG, "GetWeightByIdx reads weights[i]", "provenance", g.Pos(), "GetWeightByIdx(i) is cache.weights[i]", "GetWeightByIdx does not return cache.weights[i]: the counter adds something that is not part of the checked total")
+		c11CheckGetWeight(c)
 	})
 
 	// (3) ---------------------------------------------------------------
-	c.Clause("C11.const", func() {
-		tn := p.LookupType(c11Pkg + ".Weight")
+	c11Clause(c, "C11.const", func(c *core.Ctx) {
+		tn := c.P.LookupType(c11Pkg + ".Weight")
 		c.Need(tn != nil && sizes != nil, "type Weight and the target's type sizes")
 		maxW, sz, uns := c11UnsignedMax(sizes, tn.Type())
 		c.Check(uns, "Weight is unsigned", "T15 ConstRelation", tn.Pos(), fmt.Sprintf("Weight's underlying type is an unsigned %d-bit integer (wrap detection by result < operand is exact)", 8*sz),
@@ -926,8 +993,10 @@ func runC11(c *core.Ctx) {
 			[]string{c11FVValues, c11FVCache, c11FIndexes, c11FWeights, c11FIDs, c11FTotal},
 			[]string{c11V, c11Cache}, c11ValidatorOwners)
 		c.ExpectAtLeast("writers of Validators/cache state", n, c11MinValidatorWriters)
+	})
+	c11Clause(c, "C11.writers", func(c *core.Ctx) {
 		// newValidators: cache is assigned from calcCaches() of the object under construction
-		nv := c.Fn(c11Pkg + ".newValidators")
+		nv := c11Fn(c, c11Pkg+".newValidators")
 		as := assignsToField(nv, c11FVCache)
 		okC := len(as) == 1
 		if okC {
@@ -960,10 +1029,45 @@ func runC11(c *core.Ctx) {
 			[]string{c11WC + ".sum", c11WC + ".already", c11WC + ".quorum", c11WC + ".validators"},
 			[]string{c11WC}, c11CounterOwners)
 		c.ExpectAtLeast("writers of WeightCounter state", n, len(c11CounterOwners))
-
+		// the private slice does not leak: only CountByIdx (and code that runs only as a part of it: a
+		// delegate reaching the slice through the operand CountByIdx passes) mentions the field
 		f := c.Fn(c11WC + ".CountByIdx")
+		ctor := c.Fn(c11Pkg + ".newWeightCounter")
+		obj := c11Constructed(ctor, c11WC)
+		c.Need(obj != nil, "newWeightCounter builds one WeightCounter whose fields are each initialised once (literal or stores through the fresh local)")
+		deleg := c11DelegOf(p)
+		for _, g := range p.Funcs() {
+			if g.Pkg.PkgPath != f.Pkg.PkgPath || g == f {
+				continue
+			}
+			leak := false
+			g.InspectOwn(func(n ast.Node) bool {
+				if sel, ok := n.(*ast.SelectorExpr); ok && fieldNameOf(g, sel) == c11WC+".already" {
+					// the constructor's initialising store counter.already = make(...) is not an access
+					if g == ctor && obj.Stores[ast.Expr(sel)] {
+						return true
+					}
+					root, _ := c11Chain(g, sel)
+					for _, at := range deleg.attributed(g, varOf(g, root), c11DelegDepth) {
+						if at.F != f {
+							leak = true
+						}
+					}
+				}
+				return true
+			})
+			if leak {
+				c.Fail(short(g.Name)+" touches already", "T6 WhoMayWrite", g.Pos(), g.Name+" accesses the counter's private already slice: marks can be changed or aliased outside CountByIdx")
+			}
+		}
+	})
+	c11Clause(c, "C11.counter", func(c *core.Ctx) {
+		f := c11Fn(c, c11WC+".CountByIdx")
 		recv, idxP := f.Recv(), f.Param(0)
 		c.Need(recv != nil && idxP != nil, "CountByIdx has a named receiver and index parameter")
+		if pos, hit := c11LitEffect(f, map[string]bool{c11WC + ".sum": true, c11WC + ".already": true}, map[*types.Var]bool{}, false); hit {
+			c.Fail("no effect hidden in a function literal", "T6 (closures)", pos, "a function literal of CountByIdx that is not looked through changes sum or already: guard, mark and addition are not the only effects")
+		}
 		c.Check(len(assignsToVar(f, idxP)) == 0 && len(assignsToVar(f, recv)) == 0, "index and receiver are not reassigned", "provenance", f.Pos(),
 			"the guard, the mark and the added weight all refer to the caller's index", "the index parameter or receiver is reassigned inside CountByIdx: guard, mark and weight may refer to different validators")
 		isAlready := func(e ast.Expr) bool {
@@ -1007,6 +1111,12 @@ func runC11(c *core.Ctx) {
 					okAdd = c11IsPath(f, sel.X, recv, c11WC+".validators") && varOf(f, core.StripConv(f.Info(), call.Args[0])) == idxP
 				}
 			}
+			if !okAdd {
+				// the accessor written out: validators.cache.weights[i]
+				if ix, ok := ast.Unparen(resolveLocal(f, addend)).(*ast.IndexExpr); ok {
+					okAdd = c11IsPath(f, ix.X, recv, c11WC+".validators", c11FVCache, c11FWeights) && varOf(f, core.StripConv(f.Info(), ix.Index)) == idxP
+				}
+			}
 			c.Check(okAdd, "sum += weight(i)", "provenance", a.Stmt.Pos(), "the added value is validators.GetWeightByIdx(i) for the counted index i", "the value added to sum is not the counted validator's weight")
 			ok, wit := f.GuardedBy(a.Pt, func(ft core.Fact) bool {
 				e, val, ok := c11BoolFact(f.Info(), ft)
@@ -1026,7 +1136,7 @@ func runC11(c *core.Ctx) {
 		}
 
 		// constructor: sum starts at 0, already is a fresh all-false slice
-		ctor := c.Fn(c11Pkg + ".newWeightCounter")
+		ctor := c11Fn(c, c11Pkg+".newWeightCounter")
 		obj := c11Constructed(ctor, c11WC)
 		c.Need(obj != nil, "newWeightCounter builds one WeightCounter whose fields are each initialised once (literal or stores through the fresh local)")
 		kv := obj.Fields
@@ -1042,7 +1152,7 @@ func runC11(c *core.Ctx) {
 			"a new counter does not start with sum 0 and a fresh all-false slice: the reported quorum does not correspond to the counted validators")
 
 		// Count = CountByIdx(GetIdx(v))
-		cnt := c.Fn(c11WC + ".Count")
+		cnt := c11Fn(c, c11WC+".Count")
 		okCnt := len(cnt.ReturnPoints()) > 0
 		for _, rp := range cnt.ReturnPoints() {
 			r := rp.Node().(*ast.ReturnStmt)
@@ -1059,13 +1169,16 @@ func runC11(c *core.Ctx) {
 					if g := isCallTo(cnt, arg, c11V+".GetIdx"); g != nil && len(g.Args) == 1 && sel != nil {
 						gs, _ := ast.Unparen(g.Fun).(*ast.SelectorExpr)
 						okR = varOf(cnt, sel.X) == cnt.Recv() && gs != nil && c11IsPath(cnt, gs.X, cnt.Recv(), c11WC+".validators") && varOf(cnt, g.Args[0]) == cnt.Param(0) && cnt.Param(0) != nil
+					} else if ix, isIx := ast.Unparen(resolveLocal(cnt, arg)).(*ast.IndexExpr); isIx && sel != nil {
+						// the accessor written out: validators.cache.indexes[v]
+						okR = varOf(cnt, sel.X) == cnt.Recv() && c11IsPath(cnt, ix.X, cnt.Recv(), c11WC+".validators", c11FVCache, c11FIndexes) && varOf(cnt, ix.Index) == cnt.Param(0) && cnt.Param(0) != nil
 					}
 				}
 			}
 			okCnt = okCnt && okR
 		}
 		c.Check(okCnt, "Count = CountByIdx(GetIdx(v))", "provenance", cnt.Pos(), "Count delegates to CountByIdx with the index of the given validator in the counter's own set", "Count does not delegate to CountByIdx(validators.GetIdx(v)): counting by ID and by index disagree")
-		gi := c.Fn(c11V + ".GetIdx")
+		gi := c11Fn(c, c11V+".GetIdx")
 		okGI := len(gi.ReturnPoints()) > 0
 		for _, rp := range gi.ReturnPoints() {
 			r := rp.Node().(*ast.ReturnStmt)
@@ -1078,30 +1191,11 @@ func runC11(c *core.Ctx) {
 			okGI = okGI && okR
 		}
 		c.Check(okGI, "GetIdx reads indexes[id]", "provenance", gi.Pos(), "GetIdx(id) is cache.indexes[id]", "GetIdx does not return cache.indexes[id]")
-		// the private slice does not leak: only CountByIdx mentions the field
-		for _, g := range p.Funcs() {
-			if g.Pkg.PkgPath != f.Pkg.PkgPath || g == f {
-				continue
-			}
-			leak := false
-			g.InspectOwn(func(n ast.Node) bool {
-				if sel, ok := n.(*ast.SelectorExpr); ok && fieldNameOf(g, sel) == c11WC+".already" {
-					// the constructor's initialising store counter.already = make(...) is not an access
-					if !(g == ctor && obj.Stores[ast.Expr(sel)]) {
-						leak = true
-					}
-				}
-				return true
-			})
-			if leak {
-				c.Fail(short(g.Name)+" touches already", "T6 WhoMayWrite", g.Pos(), g.Name+" accesses the counter's private already slice: marks can be changed or aliased outside CountByIdx")
-			}
-		}
 	})
 
 	// (6) ---------------------------------------------------------------
-	c.Clause("C11.hasQuorum", func() {
-		f := c.Fn(c11WC + ".HasQuorum")
+	c11Clause(c, "C11.hasQuorum", func(c *core.Ctx) {
+		f := c11Fn(c, c11WC+".HasQuorum")
 		recv := f.Recv()
 		c.Need(recv != nil, "HasQuorum has a named receiver")
 		namer := func(e ast.Expr) string {
@@ -1142,10 +1236,58 @@ func runC11(c *core.Ctx) {
 				c.Check(ok, "HasQuorum = (sum >= quorum)", "T4 GuardedBy + NormLinCmp", r.Pos(), fmt.Sprintf("%v is returned only on the edge %s", constant.BoolVal(v), want), failMsg+"; path "+f.DescribePath(wit))
 				continue
 			}
-			c.Check(is(yes)(core.Fact{Expr: res, Truth: true}), "HasQuorum = (sum >= quorum)", "NormLinCmp", r.Pos(), "the result normalises to quorum - sum <= 0", failMsg)
+			// a result variable (single-exit form): every value it can hold at the return is justified by
+			// the edges taken before and after the assignment that put it there
+			if v := varOf(f, res); v != nil && v != recv && c11SingleDef(f, v) == nil {
+				as := assignsToVar(f, v)
+				okVar := len(as) > 0
+				for _, l := range allLits(f) {
+					if len(assignsToVar(l, v)) > 0 {
+						okVar = false
+					}
+				}
+				wit := []core.Point(nil)
+				for _, a := range as {
+					isConst, val := false, false
+					if a.RHS == nil {
+						if _, isSpec := a.Stmt.(*ast.ValueSpec); isSpec {
+							isConst = true // var res bool
+						}
+					} else if cv, ok := core.ConstVal(f.Info(), a.RHS); ok && cv.Kind() == constant.Bool && (a.Tok == token.ASSIGN || a.Tok == token.DEFINE) {
+						isConst, val = true, constant.BoolVal(cv)
+					}
+					if !isConst {
+						// res = (sum >= quorum) is right on every path
+						if a.RHS == nil || (a.Tok != token.ASSIGN && a.Tok != token.DEFINE) || !is(yes)(core.Fact{Expr: resolveLocal(f, a.RHS), Truth: true}) {
+							okVar = false
+						}
+						continue
+					}
+					want := no
+					if val {
+						want = yes
+					}
+					guard := f.GuardEdges(is(want))
+					var others []core.Point
+					for _, o := range as {
+						if o.Pt != a.Pt {
+							others = append(others, o.Pt)
+						}
+					}
+					before, w1 := f.ReachableAvoiding(a.Pt, nil, guard)
+					w2, after := core.PathQuery{F: f, From: a.Pt, FromAfter: true, Target: core.PointSet(rp), Avoid: core.PointSet(others...), AvoidEdge: guard}.Find()
+					if before && after {
+						okVar = false
+						wit = append(append([]core.Point(nil), w1...), w2...)
+					}
+				}
+				c.Check(okVar, "HasQuorum = (sum >= quorum)", "T4 GuardedBy + NormLinCmp", r.Pos(), "the returned variable holds true only after the edge quorum - sum <= 0 and false only after the edge sum - quorum + 1 <= 0", failMsg+"; path "+f.DescribePath(wit))
+				continue
+			}
+			c.Check(is(yes)(core.Fact{Expr: resolveLocal(f, res), Truth: true}), "HasQuorum = (sum >= quorum)", "NormLinCmp", r.Pos(), "the result normalises to quorum - sum <= 0", failMsg)
 		}
 		// Sum accessor, if used above, must be the field
-		sm := c.Fn(c11WC + ".Sum")
+		sm := c11Fn(c, c11WC+".Sum")
 		okS := len(sm.ReturnPoints()) > 0
 		for _, rp := range sm.ReturnPoints() {
 			r := rp.Node().(*ast.ReturnStmt)
@@ -1154,7 +1296,7 @@ func runC11(c *core.Ctx) {
 		c.Check(okS, "Sum is the counted weight", "provenance", sm.Pos(), "Sum() returns sum", "Sum() does not return the counted weight")
 
 		// quorum is set once, in the constructor, from Quorum() of the stored set
-		ctor := c.Fn(c11Pkg + ".newWeightCounter")
+		ctor := c11Fn(c, c11Pkg+".newWeightCounter")
 		obj := c11Constructed(ctor, c11WC)
 		c.Need(obj != nil, "newWeightCounter builds one WeightCounter whose fields are each initialised once (literal or stores through the fresh local)")
 		kv := obj.Fields
@@ -1176,7 +1318,7 @@ func runC11(c *core.Ctx) {
 		c.Check(okQ, "quorum = validators.Quorum()", "provenance", obj.Pos, "the counter's quorum is Quorum() of the very set whose weights it counts; no other writer exists (see writers)",
 			"the counter's threshold is not Quorum() of the validator set it counts over")
 		// every *WeightCounter is made by newWeightCounter: NewCounter delegates
-		nc := c.Fn(c11V + ".NewCounter")
+		nc := c11Fn(c, c11V+".NewCounter")
 		okN := len(nc.ReturnPoints()) > 0
 		for _, rp := range nc.ReturnPoints() {
 			r := rp.Node().(*ast.ReturnStmt)
@@ -1613,4 +1755,21 @@ func c11QuorumCounterexample(f *core.FuncInfo, sizes types.Sizes, e ast.Expr, is
 		}
 	}
 	return ""
+}
+
+// c11CheckGetWeight: GetWeightByIdx(i) is cache.weights[i].
+func c11CheckGetWeight(c *core.Ctx) {
+	g := c11Fn(c, c11V+".GetWeightByIdx")
+	okG := len(g.ReturnPoints()) > 0
+	for _, rp := range g.ReturnPoints() {
+		r := rp.Node().(*ast.ReturnStmt)
+		okR := false
+		if len(r.Results) == 1 {
+			if ix, ok := ast.Unparen(resolveLocal(g, r.Results[0])).(*ast.IndexExpr); ok {
+				okR = c11IsPath(g, ix.X, g.Recv(), c11FVCache, c11FWeights) && varOf(g, ix.Index) == g.Param(0) && g.Param(0) != nil && len(assignsToVar(g, g.Param(0))) == 0
+			}
+		}
+		okG = okG && okR
+	}
+	c.Check(okG, "GetWeightByIdx reads weights[i]", "provenance", g.Pos(), "GetWeightByIdx(i) is cache.weights[i]", "GetWeightByIdx does not return cache.weights[i]: the counter adds something that is not part of the checked total")
 }
